@@ -149,6 +149,7 @@ def DeadR (s : St) (f : Nat) : Prop := Dead s f ∧ f ∉ (s.ver s.cur).rollup
 /-- per-job part of the invariant -/
 structure JobOk (s : St) (j : Nat) (b : Job) : Prop where
   konly : compactOnly b.pc = true → b.kind = .compact
+  notCloned : b.pc ≠ .cCloned
   noOut : preAlloc b.pc = true → b.out = none
   ownIdx : (b.pc = .oDecd ∨ b.pc = .oRemoved) → b.snap < s.nSnap
   pend : outPending b.pc = true → ∀ f ∈ outNo b, f ∈ s.pending
